@@ -21,6 +21,10 @@ Re-open (suites reopen, reopen-random): the second / third session of ONE driver
 as two with-blocks — on a device re-started at a login level (exec vs privilege_exec), closed after having been in every
 level; the tracked level survives close(), only on_open's explicit acquire_priv re-synchronises it.  The lines on_open itself
 passes to send_command are commands like any other: the oracle holds them to the default desired level.  Oracle-only.
+Generic-driver mode with a named level (suite generic-explicit): the mode is on and send_interactive(privilege_level=T) — T the
+default desired level or any other — follows operations that moved the device (send_configs / acquire_priv / send_interactive at
+another level before the mode was switched on, acquire_priv / send_interactive(level) while it is on); an operation given a level
+runs at that level in this mode too.  In the model (OSetGeneric, OInteractive (Some T)) and judged on the device's log.
 Refusing / ignoring devices (suites dev-refuse, dev-ignore): one transition of the vendor table is answered with the
 invalid-input text / a bare prompt, for every transition and every operation that needs it.  Oracle-only.
 Translator refusals never stop the failing-input search: every GenError of gen_netdriver is turned into a reported broken tie
@@ -966,6 +970,56 @@ def refuse_scenarios(info, thorough):
     return out
 
 
+# ------------------------------------------------------------------------------------------------
+# generic-explicit: generic-driver mode is ON and an operation names its level.  In that mode the driver stops chasing the
+# default desired level for operations that name none (send_command, send_interactive()), but an operation that is GIVEN a
+# level — send_interactive(privilege_level=T), T the default desired level itself or any other — still has to run there,
+# wherever the earlier operations left the device: a send_configs / acquire_priv / send_interactive at another level before
+# the mode was switched on, or acquire_priv / send_interactive(level) while it is on (send_config(s) refuses in this mode:
+# nothing of it may reach the device).  Then: the same again at the default level, or mode off and a command.
+# Oracle as everywhere: the device's own record of the mode each user line arrived in.
+# ------------------------------------------------------------------------------------------------
+def generic_explicit_scenarios(info, thorough):
+    out = []
+    for plat in PLATFORMS:
+        pi = info[plat]
+        default = [n for n, i in pi["level_ids"].items() if i == pi["default"]][0]
+        registered = list(pi["sessions"])
+        names = [nm for nm in pi["level_ids"] if pi["level_ids"][nm] < pi["nbase"]] + registered
+        cfgs = [c for c in cfg_levels(pi) if c in names]
+        others = [x for x in names if x not in cfgs and x != default]
+        # movers while the mode is off / while it is on
+        before = [[{"op": "cfgs", "lines": ["show u1"], "priv": c}] for c in [None] + cfgs[1:]] + \
+                 [[{"op": "acquire", "level": x}] for x in others] + \
+                 [[{"op": "interactive", "lines": ["show u1"], "priv": cfgs[0]}]]
+        inside = [[{"op": "acquire", "level": x}] for x in names if x != default] + \
+                 [[{"op": "interactive", "lines": ["show u2"], "priv": x}] for x in cfgs[:1] + others[-1:]] + \
+                 [[{"op": "cfgs", "lines": ["show u2"], "priv": None}]]
+        moves = [(b, []) for b in [[]] + before] + [([], i_) for i_ in inside]
+        if thorough:
+            moves += [(b, i_) for b in before for i_ in inside]     # both: one follow-up in rotation
+        follows = [[{"op": "interactive", "lines": ["show u5"], "priv": default}],
+                   [{"op": "generic", "value": False}, {"op": "cmds", "lines": ["show u6"], "single": True}],
+                   [{"op": "cmds", "lines": ["show u6"], "single": True}, {"op": "interactive", "lines": ["show u5"], "priv": default}]]
+        n = 0
+        for login in logins(pi):
+            for (b, i_) in moves:
+                for tlev in [default] + [x for x in names if x != default]:
+                    target = {"op": "interactive", "lines": ["show u3", "show u4"], "priv": tlev}
+                    n += 1
+                    for fi, fo in enumerate(follows):
+                        if (not thorough or (b and i_)) and fi != n % len(follows):
+                            continue
+                        ops = [{"op": "open"}] + [{"op": "register", "name": s_} for s_ in registered] + [dict(o) for o in b] + \
+                              [{"op": "generic", "value": True}] + [dict(o) for o in i_] + [target] + [dict(o) for o in fo]
+                        for stack in ("sync", "async"):
+                            if not thorough and tlev != default and (n + (stack == "sync")) % 2:
+                                continue     # quick: a level other than the default one: one stack in rotation
+                            out.append(({"platform": plat, "stack": stack, "login": login, "secret": None, "policy": ["whole"],
+                                         "ops": [dict(o) for o in ops]}, "generic-explicit"))
+    return out
+
+
 def has_reopen(sc):
     return any(o["op"] == "close" for o in sc["ops"])
 
@@ -1161,6 +1215,8 @@ def run(rep):
     scenarios += reopen_random(info, rng, thorough)
     # 8. devices that refuse / ignore one transition of the vendor table
     scenarios += refuse_scenarios(info, thorough)
+    # 9. generic-driver mode on, operations that name their level (the default one, every other) after the device was moved
+    scenarios += generic_explicit_scenarios(info, thorough)
 
     terms, kept, term_ix = [], [], []
     dist = {"by_suite": {}, "by_platform": {}, "op_kinds": {}, "results": {}, "history_len": {}, "in_known_region": 0,
@@ -1324,6 +1380,12 @@ def run(rep):
                 "device refuses (invalid-input text) / ignores (bare prompt) it for the whole history: open, register, get to the "
                 "transition's source level, then an operation that needs its target (acquire_priv / send_configs / send_interactive / "
                 "send_command(s)), the same again, send_command, send_configs(); x login x sync/async (quick: half of them in rotation). "
+                "generic-explicit (all five platforms, every registered session): open, register, [a mover with the mode off: send_configs at "
+                "each configuration level / acquire_priv(every other level) / send_interactive(configuration)], generic mode ON, [a mover with "
+                "the mode on: acquire_priv(every non-default level) / send_interactive(level) / send_configs (refused in this mode)] (quick: "
+                "one mover, thorough: also both, then one follow-up in rotation), then send_interactive(privilege_level=T) for T = the default desired level and every other "
+                "level, then one of {send_interactive(default level), mode off + send_command, send_command + send_interactive(default level)} "
+                "(quick: in rotation; T other than the default: one stack in rotation), x login x sync/async. "
                 "A GenError of the translator (any function, any platform) leaves all suites running, oracle-only on what was refused. "
                 "non-trivial = at least 3 operations and at least 3 navigation/abort lines executed by the device; "
                 "distinct = (platform, stack, login, secret, operation list)" % L)
@@ -1430,7 +1492,10 @@ MANIFEST = {
             "send_configs() / send_command / send_interactive(B), plus the abort-then histories: on every platform and every configuration level / "
             "registered session L, send_config(s)(L, stop_on_failed=True) whose k-th line fails so that the platform _abort_config runs, then "
             "send_config(s) at the same level (only the belief decides whether acquire_priv is skipped) / at another level / at the default level / "
-            "send_command / send_interactive(L) / acquire_priv(L), then send_command) and an independent oracle reads the device's own execution log "
+            "send_command / send_interactive(L) / acquire_priv(L), then send_command, plus the generic-explicit histories: generic-driver mode on, "
+            "send_interactive(privilege_level=T) with T the default desired level and every other level after operations that moved the device "
+            "before / while the mode is on — an operation that names its level runs there in generic mode too, only operations naming none "
+            "are exempt) and an independent oracle reads the device's own execution log "
             "(a history in which a user line arrived in the wrong mode is reported with that line, ahead of belief-only differences); the oracle takes "
             "a DUMMY belief for the known finding's premise only if the history accounts for it (login, generic mode switched on, an operation "
             "that did not complete) — a completed operation, registration in particular, that forgets a known level is not excused. "
